@@ -78,6 +78,8 @@ pub mod net;
 pub mod pipe;
 pub mod poll;
 pub mod process;
+#[cfg(a10_verif)]
+pub mod verif;
 
 cfg_select! {
     any(target_os = "android", target_os = "linux") => {
